@@ -152,6 +152,7 @@ def normalize_power(case, ctx):
     p = 1.0 if case["default"] else case["power"]
     ctx.tag("complex" if np.iscomplexobj(a) else "real", "default_power" if case["default"] else None)
     ctx.nontrivial_if(np.count_nonzero(a) >= 2)
+    a = gen.relayout(a, ["C", "F", "strided", "reversed"][a.shape[0] % 4])
     a0 = a.copy()
     arg = a.tolist() if case.get("form") == "list" else a
     ctx.tag("form:" + case.get("form", "array") + ("/" + a.dtype.kind))
